@@ -54,6 +54,10 @@ func corpus() []*lang.Node {
 		// finding closure-registers: an escaping closure reads a register that was restored / overwritten
 		C(C(C(L([]string{"a", "b"}, L([]string{"c"}, C(S("add"), S("a"), S("c")))), I(1)), I(2)), I(3)),
 		C(L([]string{"mk"}, C(S("call1"), C(S("first"), C(S("pair"), C(S("call1"), S("mk"), I(1)), C(S("call1"), S("mk"), I(2)))), I(10))), mk),
+		// finding closure-registers, re-entrance: no lambda uses an enclosing parameter, but g is the lambda
+		// itself; the inner activation overwrites y, which the outer one reads after the call (7, not 6)
+		C(L([]string{"f"}, C(S("call2"), S("f"), S("f"), I(1))),
+			L([]string{"g", "y"}, C(S("add"), C(S("call2"), S("g"), L([]string{"a", "b"}, S("b")), C(S("add"), S("y"), I(1))), S("y")))),
 		// the same shapes where the VM is right
 		C(C(L([]string{"a"}, L([]string{"b"}, C(S("sub"), S("a"), S("b")))), I(1)), I(2)),
 		C(S("call1"), L([]string{"a"}, C(S("call1"), L([]string{"b"}, C(S("add"), S("a"), S("b"))), I(10))), I(20)),
